@@ -27,7 +27,8 @@ class InjectedFailure(RuntimeError):
 
 # ------------------------------------------------------------------ algorithm table
 # family: count-rule family of DOEPipeline.tla; seedkw: name of the seed setting (None: no seed);
-# settings(n, d, variant) -> (kwargs, n logged, p logged)
+# settings(n, d, variant) -> (kwargs, n logged, p logged[, ux: the user-provided per-component structure as
+# logged for the specification, see DOEPipeline.tla "USER-PROVIDED STRUCTURE"])
 
 def _n(n, d, v):
     return {"n_samples": n}, n, 0
@@ -45,7 +46,8 @@ ALGOS["PYDOE_LHS"] = {"fam": "exact", "seedkw": "random_state", "settings": _n}
 ALGOS["OT_OPT_LHS"] = {"fam": "exact2", "seedkw": "seed", "settings": _n}
 ALGOS["PoissonDisk"] = {"fam": "atmost", "seedkw": "seed", "settings": _n}
 ALGOS["DiagonalDOE"] = {"fam": "diag", "seedkw": None,
-                        "settings": lambda n, d, v: ({"n_samples": n, **({"reverse": ["0"]} if v % 2 else {})}, n, 0)}
+                        "settings": lambda n, d, v: ({"n_samples": n, **({"reverse": ["0"]} if v % 2 else {})}, n, 0,
+                                                     {"sel": ["0"] if v % 2 else []})}
 ALGOS["OT_FULLFACT"] = {"fam": "fullfact", "seedkw": "seed", "settings": _n}
 ALGOS["PYDOE_FULLFACT"] = {"fam": "fullfact", "seedkw": None, "settings": _n}
 ALGOS["OT_AXIAL"] = {"fam": "axial", "seedkw": "seed", "settings": _n}
@@ -66,46 +68,141 @@ ALGOS["PYDOE_CCDESIGN"] = {"fam": "cc", "seedkw": None,
                                                          "center": (1, 1 + v % 2)}, 0, 2 + v % 2)}
 ALGOS["PYDOE_FF2N"] = {"fam": "ff2n", "seedkw": None, "settings": _none}
 ALGOS["PYDOE_PBDESIGN"] = {"fam": "pb", "seedkw": None, "settings": _none}
-ALGOS["OATDOE"] = {"fam": "oat", "seedkw": None,
-                   "settings": lambda n, d, v: ({"initial_point": np.full(d, 0.5), "step": 0.75 if v % 3 == 2 else 0.25},
-                                                0, 1 if v % 3 == 2 else 0)}
+# initial point: distinct, decreasing components (4-k)/8 for even variants (the order of the components matters)
+def _oat(n, d, v):
+    pv = [G // 2] * d if v % 2 else [(4 - (k % 4)) * G // 8 for k in range(d)]
+    return ({"initial_point": np.array(pv, dtype=float) / G, "step": 0.75 if v % 3 == 2 else 0.25},
+            0, 1 if v % 3 == 2 else 0, {"pv": pv})
+
+
+ALGOS["OATDOE"] = {"fam": "oat", "seedkw": None, "settings": _oat}
 ALGOS["CustomDOE"] = {"fam": "custom", "seedkw": None, "settings": None}     # samples built per space
+# the algorithms of the families parameterised by per-direction levels / centres (scenarios enumerated by TLC)
+LFAM_ALGOS = {"fullfactL": ("OT_FULLFACT", "PYDOE_FULLFACT"), "axialL": ("OT_AXIAL",), "factorialL": ("OT_FACTORIAL",),
+              "compositeL": ("OT_COMPOSITE",)}
+FAM_ALGOS = dict(LFAM_ALGOS, custom=("CustomDOE",), diag=("DiagonalDOE",), oat=("OATDOE",))
+NOUX = {"form": "none", "perm": [], "fopt": 0, "pres": [], "sel": [], "pv": [], "scal": False, "lv": []}
+WORKDIR = None      # set by the check: where the files of the "file" input form are written
+# file input form: fopt -> (delimiter, lines to skip, comment lines inside, extension)
+FOPTS = {0: (",", 0, False, ".csv"), 1: (";", 1, False, ".txt"), 2: (" ", 2, False, ".txt"), 3: (",", 0, True, ".csv"),
+         4: (";", 2, True, ".csv"), 5: (" ", 0, False, ".csv")}
+_file_counter = [0]
+
+
+def kwargs_from_ux(fam, ux, n):
+    """Transport of the user-provided structure (as enumerated by TLC / logged for it) to gemseo settings."""
+    if fam == "custom":
+        form, pres = ux["form"], ux["pres"]
+        if form == "array":
+            return {"samples": np.array(pres, dtype=float) / U}
+        if form == "rows":
+            return {"samples": [{name: np.array(vals, dtype=float) / U for name, vals in row} for row in pres]}
+        if form == "cols":
+            return {"samples": {name: np.array(mat, dtype=float) / U for name, mat in pres}}
+        if form == "file":
+            delim, skip, comments, ext = FOPTS[ux["fopt"]]
+            _file_counter[0] += 1
+            path = WORKDIR / f"doe-{_file_counter[0]}{ext}"
+            lines = [f"junk line {i}" for i in range(skip)]
+            for i, row in enumerate(pres):
+                if comments and i % 2 == 0:
+                    lines.append("# a comment line")
+                lines.append(delim.join(repr(float(Fraction(v, U))) for v in row))
+            path.write_text("\n".join(lines) + "\n")
+            return {"doe_file": str(path), "delimiter": delim, "skiprows": skip}
+        raise ValueError(form)
+    if fam == "diag":
+        return {"n_samples": n, **({"reverse": list(ux["sel"])} if ux["sel"] else {})}
+    if fam == "fullfactL":
+        return {"levels": int(ux["pv"][0]) if ux["scal"] else [int(v) for v in ux["pv"]]}
+    if fam in ("axialL", "factorialL", "compositeL"):
+        return {"centers": float(Fraction(ux["pv"][0], G)) if ux["scal"] else [float(Fraction(v, G)) for v in ux["pv"]],
+                "levels": [float(Fraction(a, b)) for a, b in ux["lv"]]}
+    if fam == "oat":
+        return {"initial_point": np.array(ux["pv"], dtype=float) / G, "step": 0.25}
+    raise ValueError(fam)
 
 
 # ------------------------------------------------------------------ design spaces
 
-def build_space(comps, flag0):
-    """comps: list of (lb, ub, is_int) with lb, ub multiples of 1/8 (floats)."""
+def build_space(raw, prep, flag0):
+    """raw: list of (lb, ub, is_int, name) with lb, ub multiples of 1/8 (floats), in the order the variables are
+    ADDED (consecutive components with the same name form one variable); prep: DesignSpace operations applied
+    afterwards (the specification computes the resulting design-space order: DOEPipeline.tla, Prep)."""
     from gemseo.algos.design_space import DesignSpace
 
     ds = DesignSpace()
-    # consecutive components of the same type form one variable of size <= 2 (sizes > 1 are exercised)
     i = 0
-    k = 0
-    while i < len(comps):
+    while i < len(raw):
         j = i + 1
-        if j < len(comps) and comps[j][2] == comps[i][2]:
+        while j < len(raw) and raw[j][3] == raw[i][3]:
             j += 1
-        lb = np.array([c[0] for c in comps[i:j]], dtype=float)
-        ub = np.array([c[1] for c in comps[i:j]], dtype=float)
-        ds.add_variable(f"v{k}", size=j - i, type_="integer" if comps[i][2] else "float",
+        lb = np.array([c[0] for c in raw[i:j]], dtype=float)
+        ub = np.array([c[1] for c in raw[i:j]], dtype=float)
+        ds.add_variable(raw[i][3], size=j - i, type_="integer" if raw[i][2] else "float",
                         lower_bound=lb, upper_bound=ub)
-        k += 1
         i = j
+    for o in prep:
+        if o["op"] == "rename":
+            ds.rename_variable(o["name"], o["new"])
+        elif o["op"] == "remove":
+            ds.remove_variable(o["name"])
+        elif o["op"] == "keep":
+            ds.filter(list(o["names"]))
+        elif o["op"] == "dims":
+            ds.filter_dimensions(o["name"], list(o["dims"]))
     if flag0:
         ds.enable_integer_variables_normalization = True
     return ds
 
 
+def _op(op, name="", new="", names=(), dims=()):
+    return {"op": op, "name": name, "new": new, "names": list(names), "dims": list(dims)}
+
+
+def decorate(comps, variant):
+    """A way of obtaining the design space `comps` through DesignSpace operations: (raw, prep).  Only an input
+    generator: the specification recomputes the final space from (raw, prep), clause HarnessSpace compares."""
+    comps = [tuple(c) for c in comps]
+    names = []
+    for c in comps:
+        if c[3] not in names:
+            names.append(c[3])
+    v = variant % 6
+    extra = [(10.0, 11.0, False, "e"), (20.0, 22.0, False, "e")]
+    if v == 1:      # the first variable was added under another name (sorted elsewhere), then renamed
+        tmp = "zz" + names[0]
+        return [c[:3] + (tmp,) if c[3] == names[0] else c for c in comps], [_op("rename", tmp, names[0])]
+    if v == 2:      # another variable was added first, then removed
+        return extra + comps, [_op("remove", "e")]
+    if v == 3:      # another (integer) variable in the middle; filter() with the names in reverse order
+        k = max(i for i, c in enumerate(comps) if c[3] == names[0]) + 1
+        return comps[:k] + [(0.0, 3.0, True, "m")] + comps[k:], [_op("keep", names=list(reversed(names)))]
+    if v == 4:      # the last variable had one more component (the first one), dropped by filter_dimensions
+        k = min(i for i, c in enumerate(comps) if c[3] == names[-1])
+        size = sum(1 for c in comps if c[3] == names[-1])
+        ghost = (5.0, 6.0, comps[k][2], names[-1])
+        return comps[:k] + [ghost] + comps[k:], [_op("dims", names[-1], dims=range(1, size + 1))]
+    if v == 5:      # renamed last variable + removed trailing variable
+        tmp = "a" + names[-1]
+        return ([c[:3] + (tmp,) if c[3] == names[-1] else c for c in comps] + extra,
+                [_op("remove", "e"), _op("rename", tmp, names[-1])])
+    return comps, []
+
+
 def space_json(comps):
-    return [{"lb": int(Fraction(c[0]) * S), "ub": int(Fraction(c[1]) * S), "int": bool(c[2])} for c in comps]
+    return [{"var": c[3], "lb": int(Fraction(c[0]) * S), "ub": int(Fraction(c[1]) * S), "int": bool(c[2])} for c in comps]
+
+
+def layout_of(ds):
+    return [[str(n), int(ds.get_size(n))] for n in ds.variable_names]
 
 
 def custom_samples(comps, rows, rng):
     """Rows of the design space on the dyadic grid (images of grid points; integers for integer comps)."""
     out = np.empty((rows, len(comps)))
     for r in range(rows):
-        for k, (lb, ub, isint) in enumerate(comps):
+        for k, (lb, ub, isint, *_name) in enumerate(comps):
             if isint:
                 out[r, k] = rng.randint(int(lb), int(ub))
             else:
@@ -234,6 +331,7 @@ def make_lib(algo, state):
 
     def hook(design_space, **kw):
         state["reached"] = True
+        state["space"] = design_space
         state["flag_during"] = bool(design_space.enable_integer_variables_normalization)
         u = orig(design_space, **kw)
         state["unit"] = np.array(u, dtype=float, copy=True)
@@ -250,7 +348,8 @@ def _objective(x):
 
 
 def run_scenario(sc):
-    """sc: dict(id, algo, comps, flag0, n, variant, history=[(inst, api, seeded, seed, inj), ...], custom).
+    """sc: dict(id, algo, comps, flag0, n, variant, history=[(inst, api, seeded, seed, inj[, ux]), ...], custom,
+    prepv: how the design space is obtained (decorate), asint: hand the dimension to compute_doe instead of a space).
     Returns the trace dict for DOETrace (events) and a per-event side table for reporting."""
     from gemseo.algos.optimization_problem import OptimizationProblem
     from gemseo.core.mdo_functions.mdo_function import MDOFunction
@@ -258,34 +357,49 @@ def run_scenario(sc):
     info = ALGOS[sc["algo"]]
     comps = sc["comps"]
     d = len(comps)
-    ds = build_space(comps, sc["flag0"])
-    state = {"seeder_log": [], "reached": False, "flag_during": False, "unit": None, "inj": False}
+    asint = int(sc.get("asint", 0))
+    raw, prep = decorate(comps, sc.get("prepv", 0))
+    ds = None if asint else build_space(raw, prep, sc["flag0"])
+    state = {"seeder_log": [], "reached": False, "flag_during": False, "unit": None, "inj": False, "space": None}
+
+    def flag_now():
+        # (with a dimension instead of a space, the space compute_doe built is seen at the sampler hook)
+        sp_ = ds if ds is not None else state["space"]
+        return bool(sp_.enable_integer_variables_normalization) if sp_ is not None else False
+
     libs = {}
     uid, sid, rid = Interner(), Interner(), Interner()
     events = []
-    if info["settings"] is None:
+    fam = sc.get("fam", info["fam"])
+    if "ux" in sc or any(len(h) > 5 for h in sc["history"]):
+        kwargs, nlog, plog, ux0 = None, sc["n"], sc.get("p", 0), sc.get("ux")
+    elif info["settings"] is None:
+        ux0 = {"form": "array", "pres": [[int(Fraction(v) * U) for v in row] for row in sc["custom"]]}
         kwargs, nlog, plog = {"samples": sc["custom"]}, 0, int(len(sc["custom"]))
     else:
-        kwargs, nlog, plog = info["settings"](sc["n"], d, sc["variant"])
-    for (inst, api, seeded, seed, inj) in sc["history"]:
+        kwargs, nlog, plog, *rest = info["settings"](sc["n"], d, sc["variant"])
+        ux0 = rest[0] if rest else {}
+    for (inst, api, seeded, seed, inj, *hux) in sc["history"]:
         if inst not in libs:
             libs[inst] = make_lib(sc["algo"], state)
         lib = libs[inst]
         if info["seedkw"] is None:
             seeded = False
-        kw = dict(kwargs)
+        ux = dict(NOUX, **(hux[0] if hux else (ux0 or {})))
+        kw = dict(kwargs) if kwargs is not None else kwargs_from_ux(fam, ux, sc["n"])
         if seeded:
             kw[info["seedkw"]] = seed
-        state.update(seeder_log=[], reached=False, flag_during=False, unit=None, inj=bool(inj))
-        events.append({"ev": "call", "inst": inst, "api": api, "fam": info["fam"], "n": nlog, "p": plog,
+        state.update(seeder_log=[], reached=False, flag_during=False, unit=None, inj=bool(inj), space=None)
+        events.append({"ev": "call", "inst": inst, "api": api, "fam": fam, "n": nlog, "p": plog,
                        "seeded": bool(seeded), "seed": int(seed) if seeded else 0, "inj": bool(inj),
-                       "flag": bool(ds.enable_integer_variables_normalization), "dflt": int(lib.seed)})
+                       "flag": flag_now(), "dflt": int(lib.seed), "ux": ux,
+                       "layout": layout_of(ds) if ds is not None else []})
         exc = None
         x = None
         keys = []
         try:
             if api == "compute":
-                x = lib.compute_doe(ds, **kw)
+                x = lib.compute_doe(ds if ds is not None else asint, **kw)
             else:
                 problem = OptimizationProblem(ds)
                 problem.objective = MDOFunction(_objective, "f")
@@ -301,7 +415,8 @@ def run_scenario(sc):
         if state["unit"] is not None:
             ul = unit_log(state["unit"])
             events.append(dict({"ev": "sample", "calls": calls, "used": used, "flag": state["flag_during"],
-                                "cnt": int(state["unit"].shape[0]), "uid": uid(state["unit"])}, **ul))
+                                "cnt": int(state["unit"].shape[0]), "uid": uid(state["unit"]),
+                                "layout": layout_of(state["space"])}, **ul))
             if state["inj"] and exc is None:
                 exc = InjectedFailure("swallowed")  # never expected: the injected failure must leave the call
             if state["inj"]:
@@ -311,7 +426,7 @@ def run_scenario(sc):
             events.append({"ev": "samplefail", "calls": calls, "used": used, "flag": state["flag_during"]})
         else:
             events.append({"ev": "early"})
-        end = {"ev": "end", "ok": exc is None, "flag": bool(ds.enable_integer_variables_normalization),
+        end = {"ev": "end", "ok": exc is None, "flag": flag_now(),
                "dflt": int(lib.seed), "exc": type(exc).__name__ if exc is not None else ""}
         if exc is None:
             xa = np.asarray(x, dtype=float)
@@ -323,4 +438,5 @@ def run_scenario(sc):
             end["rowids"] = [rid(row) for row in xa] if api == "execute" else []
             end["keys"] = [rid(k) for k in keys]
         events.append(end)
-    return {"id": sc["id"], "space": space_json(comps), "flag0": bool(sc["flag0"]), "events": events}
+    return {"id": sc["id"], "raw": space_json(raw), "prep": prep, "asint": asint, "final": space_json(comps),
+            "flag0": bool(sc["flag0"]), "events": events}
